@@ -73,6 +73,52 @@ theorem C03_then_boolean_predicates_instance :
 example : Spec.eval (F := Int) d0 (stackAst (.filter (.axis (chE "") qR) f2.ast) [.axis (atA "y") .none])
     ⟨.node 0, 1, 1⟩ = .ok (.val (.nodes [.node 4]) (some [[.node 4]])) := by decide +kernel
 
+/-- `[@y and position() = 2]`: the positional test comes after the location step `@y` -/
+def condYP : Ast := MixShape.andPos.ast (.axis (atA "y") .none) (PosForm.posCmp .eq "" "2").ast
+theorem fragY : Frag false (.axis (atA "y") .none) := .exist _ (.axis _ _ .none (by decide))
+theorem condYP_posCond : PosCond condYP := posCond_mix .andPos _ _ fragY (posCond_posCmp .eq "" "2")
+theorem parsed_condYP : ParsesTo "/r/*[@y and position() = 2]" (.filter (.axis (chE "") qR) condYP) :=
+  ApiSem.parsesTo_eq (by decide +kernel)
+
+/-- **`C03_position_after_steps`** on `/r/*[@y and position() = 2]`: all hypotheses discharged; the
+result is `{b}` (the second element child of `r`, the only one with an attribute `y`) -/
+theorem C03_position_after_steps_instance : ∃ (o : BOut), ∃ out,
+    sel (F := Int) d0 {} o.q (.node 0) = .ok out ∧ ∀ x, x ∈ refs out ↔ x ∈ [Ref.node 4] := by
+  obtain ⟨o, hb⟩ : ∃ o, build (fun _ => true) 100 true false
+      (.filter (.axis (chE "") qR) condYP) {} {} = .ok o := exists_ok (by decide +kernel)
+  obtain ⟨out, ns, g, origins, g0, h1, h2, _, h4, _⟩ := Theorems.C03.C03_position_after_steps (F := Int)
+    wf_d0 {} rfl hashInj_d0 (fun _ => true) 100 (chE "") rfl qR qR_frag condYP condYP_posCond {} o hb
+    (.node 0) (by decide)
+  have e : Spec.eval (F := Int) d0 (.filter (.axis (chE "") qR) condYP) ⟨.node 0, 1, 1⟩ =
+      .ok (.val (.nodes [.node 4]) (some [[.node 4]])) := by decide +kernel
+  rw [e] at h2; cases h2
+  exact ⟨o, out, h1, h4⟩
+
+/-- **`C03_bool_with_position`** on `/r/*[@x or position() = 3]`: `{a[1], b, a[2]}` — the third
+element child has no `x`, it is kept by its position -/
+theorem C03_bool_with_position_instance : ∃ (o : BOut), ∃ out,
+    sel (F := Int) d0 {} o.q (.node 0) = .ok out ∧
+      ∀ x, x ∈ refs out ↔ x ∈ [Ref.node 2, Ref.node 4, Ref.node 6] := by
+  obtain ⟨o, hb⟩ : ∃ o, build (fun _ => true) 100 true false
+      (.filter (.axis (chE "") qR)
+        (MixShape.orPos.ast (.axis (atA "x") .none) (PosForm.posCmp .eq "" "3").ast)) {} {} = .ok o :=
+    exists_ok (by decide +kernel)
+  obtain ⟨out, ns, g, origins, g0, h1, h2, _, h4, _⟩ := Theorems.C03.C03_bool_with_position (F := Int)
+    wf_d0 {} rfl hashInj_d0 (fun _ => true) 100 (chE "") rfl qR qR_frag .orPos (.axis (atA "x") .none)
+    (.exist _ (.axis _ _ .none (by decide))) .eq "" "3" {} o hb (.node 0) (by decide)
+  have e : Spec.eval (F := Int) d0 (.filter (.axis (chE "") qR)
+      (MixShape.orPos.ast (.axis (atA "x") .none) (PosForm.posCmp .eq "" "3").ast)) ⟨.node 0, 1, 1⟩ =
+      .ok (.val (.nodes [.node 2, .node 4, .node 6]) (some [[.node 2, .node 4, .node 6]])) := by
+    decide +kernel
+  rw [e] at h2; cases h2
+  exact ⟨o, out, h1, h4⟩
+
+/-- the builder-level theorem on `a[count(b) = position()]`: the hypothesis `build = .ok` holds -/
+example : ∃ o, build (fun _ => true) 100 true false
+    (.filter (.axis (chE "a") .none)
+      (.oper "=" (.call "count" "" (.acons (.axis (chE "b") .none) .anil)) (.call "position" "" .anil)))
+    {} {} = .ok o := exists_ok (by decide +kernel)
+
 /-- **`C03_flat_input_exact`** on `r/*[2]` from the root (`q = r` is a `FlatPath`) -/
 theorem C03_flat_input_exact_instance : ∃ (o : BOut), ∃ out,
     sel (F := Int) d0 {} o.q (.node 0) = .ok out ∧ refs out = [.node 4] := by
